@@ -40,6 +40,8 @@ def drop_xsd_string(t):
 
 def generate(rng, run, tier):
     plan = c03.generate(rng, run, tier)
+    while plan.get("kind") == "direct_graphs":      # (interrupted graphs: C03's own subject, nothing to audit here)
+        plan = c03.generate(rng, run, tier)
     keep_xsd = plan["cfg"]["integration"] == "generic" and rng.random() < 0.1
     plan["keep_xsd_string"] = keep_xsd
     if plan["cfg"]["integration"] == "generic" and rng.random() < 0.12:
